@@ -162,3 +162,30 @@ Definition year_kind_of (c : cal) (y : Z) : ykind :=
 Definition gap_pre (r : Z) : Z * Z * Z * Z :=     (* year, ordinal, month, day of day r-1, Julian *)
   let '(y, m, d) := jlabel (r - 1) in (y, r - 1 - J0 y + 1, m, d).
 Definition gap_post_label (r : Z) : ymd := glabel r.
+
+(* ------------------------------------------------------------------ month sums and inverses *)
+Fixpoint msum_n (c : cal) (y : Z) (k : nat) : Z :=
+  match k with O => 0 | S k' => msum_n c y k' + month_count c y (Z.of_nat k') end.
+
+Definition msum (c : cal) (y m : Z) : Z := msum_n c y (Z.to_nat m) - month_count c y 0.
+
+Definition clamp (x lo hi : Z) : Z := Z.max lo (Z.min hi x).
+
+Definition cum13 (l : bool) (m : Z) : Z := if m =? 13 then ylen l else cum l m.
+
+Definition osum (c : cal) (y m : Z) : Z :=
+  match c with
+  | CJ => cum13 (jleap y) m
+  | CG => 0
+  | CR r => clamp (r - J0 y) 0 (cum13 (jleap y) m)
+  end.
+
+Definition nsum (c : cal) (y m : Z) : Z :=
+  match c with
+  | CJ => 0
+  | CG => cum13 (gleap y) m
+  | CR r => clamp (G0 y + cum13 (gleap y) m - r) 0 (cum13 (gleap y) m)
+  end.
+
+Definition jdn_of_ordinal (c : cal) (y o : Z) : Z :=
+  if o <=? old_days c y then J0 y + o - 1 else new_start c y + (o - old_days c y) - 1.
